@@ -13,6 +13,7 @@ OP    = {"set": i, "x": X} | {"ufb": X} | {"ctor": [X...]}               (i = in
         | {"alias": i, "a": X, "j": j, "x": X}                   a = X (ndarray); obj.<field i> = a; a[j] = X
 case may also be {"conv": DT, "x": X}: numpy.array(X, DT).flatten() -> {"conv": "ok V..." | "<exception>"}
 X     = {"v": V} | {"l": [X...]} | {"d": [[i, name, X]...]} | {"nd": DT, "e": [X...]} | {"new": tid, "kw": [X...]}
+        | {"np": DT, "x": X} (NumPy scalar) | {"nd0": DT, "x": X} (0-d array) | {"tuple": [X...]} | {"f32bits": [int...]}
 V     = null | true | false | {"i": "<dec>"} | {"f": "<hex binary64>"} | {"s": [code points]} | {"y": [bytes]} | {"l": [V...]}
         | {"d": [[i, name, V]...]} | {"a": DT, "e": [V...]}               DT = b | u8.. | i8.. | f16.. | o
 result = {"steps": [[outcome, state]...], "rt": ..., "ser": ...}  state in the syntax of ocaml/c18_driver.ml
@@ -82,6 +83,14 @@ def ev(x):
         return {name: ev(e) for _, name, e in x['d']}
     if 'nd' in x:
         return np.array([ev(e) for e in x['e']], DT[x['nd']])
+    if 'np' in x:          # a NumPy scalar: numpy.<dtype>(value)
+        return DT[x['np']](ev(x['x']))
+    if 'nd0' in x:         # a 0-d array
+        return np.array(ev(x['x']), DT[x['nd0']])
+    if 'f32bits' in x:     # float32 array from raw bit patterns (signaling NaNs survive this way only)
+        return np.array(x['f32bits'], np.uint32).view(np.float32)
+    if 'tuple' in x:
+        return tuple(ev(e) for e in x['tuple'])
     if 'new' in x:
         tid = x['new']
         kw = {}
@@ -298,6 +307,8 @@ def main(argv) -> int:
             mdl = ns.get_model(drv.get_cls(key))
             got = mdl.source_file_path
             want = str(c['source']).replace(os.sep, '/')
+            if str(mdl) != '%s.%d.%d' % (c['full_name'], c['major'], c['minor']):
+                path_bad.append('CLASS-IDENTITY %s: the attribute of that name is the class of %s' % (key, mdl))
             if not (isinstance(got, pathlib.PurePosixPath) and not got.is_absolute() and str(got) == want):
                 path_bad.append('%s: %r, expected PurePosixPath(%r)' % (key, got, want))
         except Exception as ex:  # noqa: BLE001
